@@ -37,6 +37,7 @@ type poolState struct {
 }
 
 type timerState struct {
+	dur      int64 // requested duration in ns when concrete, else 0
 	ch       *ChanObj
 	armed    bool
 	periodic bool
@@ -458,6 +459,9 @@ func (w *World) timerCanFire(t *timerState) bool {
 	if !t.periodic && w.noOneShot {
 		return false // the harness models very long time-outs: one-shot timers never fire
 	}
+	if !t.periodic && w.oneShotMax > 0 && t.dur > w.oneShotMax {
+		return false // time-outs longer than the harness's horizon never fire
+	}
 	for _, g := range w.gs {
 		if g.done || g.pend == nil {
 			continue
@@ -524,7 +528,13 @@ func registerLibIntrinsics(m map[string]intrinsic) {
 	m["(time.Time).IsZero"] = func(w *World, g *G, args []Value, fin func(Value)) {
 		fin(w.tt.Eq(timeNs(args[0]), w.tt.BV(0, 64)))
 	}
-	m["time.NewTimer"] = func(w *World, g *G, args []Value, fin func(Value)) { fin(w.newTimer("Timer", false)) }
+	m["time.NewTimer"] = func(w *World, g *G, args []Value, fin func(Value)) {
+		v := w.newTimer("Timer", false)
+		if d, ok := args[0].(*Term); ok && d.IsConst() {
+			w.timers[len(w.timers)-1].dur = sext(d.Val, 64)
+		}
+		fin(v)
+	}
 	m["time.NewTicker"] = func(w *World, g *G, args []Value, fin func(Value)) { fin(w.newTimer("Ticker", true)) }
 	m["(*time.Timer).Stop"] = func(w *World, g *G, args []Value, fin func(Value)) {
 		t := w.timerOf(g, args[0])
